@@ -12,8 +12,8 @@ package server
 //   srv-reply: reply path. sendMessageAutoFrag directly for any (payload, address length, datagram
 //              limit) where the fake IO answers like udpIOImpl.SendMessage over a QUIC connection whose
 //              MaxDatagramPayloadSize is small/odd (<= header, 0, negative): *quic.DatagramTooLargeError.
-//              Then the same through the real receiveLoop goroutine (input logged first: a panic
-//              there is process-fatal, exactly as in production).
+//   srv-loop:  the same through the real receiveLoop goroutine of a session (input logged first: a
+//              panic there is process-fatal, exactly as in production).
 //   srv-run:   udpSessionManager.Run in its own goroutine fed with RAW datagrams through a
 //              ReceiveMessage that is a copy of udpIOImpl.ReceiveMessage (parse, skip invalid).
 //
@@ -314,9 +314,16 @@ func TestVerifC03ServerFeed(t *testing.T) {
 		m := newUDPSessionManager(io, vfC03Logger{io}, time.Hour)
 		r.NewObject("udpSessionManager, sequence " + id)
 		steps := 100 + rng.Intn(100)
+		aclFlood := i%10 == 3 // one session, hundreds of distinct destinations: the per-session ACL cache overflows
+		if aclFlood {
+			steps = 2*maxSessionACLCache + 100
+		}
 		panicked := false
 		for s := 0; s < steps && !panicked; s++ {
 			d := vfC03HostileDatagram(rng, s)
+			if aclFlood {
+				d = vfC03Datagram(1, 0, 0, 1, fmt.Sprintf("%sflood-%d.verif:%d", []string{"", "", "deny-acl-"}[s%3], s, 1+s), []byte{byte(s)})
+			}
 			panicked = r.DoObj(entry, r.SeqID(id), d, func(b []byte) {
 				msg, err := protocol.ParseUDPMessage(b)
 				if err != nil {
@@ -432,7 +439,6 @@ func TestVerifC03ServerReply(t *testing.T) {
 	r := vfC03New(k)
 	defer r.Close()
 	const entry = "server:sendMessageAutoFrag"
-	const loopEntry = "server:udpSessionEntry.receiveLoop"
 	payload := make([]byte, protocol.MaxUDPSize)
 	for i := range payload {
 		payload[i] = byte(i*13 + 1)
@@ -465,9 +471,6 @@ func TestVerifC03ServerReply(t *testing.T) {
 	rng := k.Rand("grid")
 	cases := vfC03ReplyCases(rng, k.N(3000, 120000))
 	for i, c := range cases {
-		if k.ReplayCase() != "" {
-			break // replay of one receive-loop sequence: skip the grid
-		}
 		r.Do(entry, []byte(fmt.Sprintf("%d/%d/%d", c[0], c[1], c[2])))
 		if i%500 == 499 {
 			r.Canary(entry, "", "3000-byte reply, limit 1200", func() error {
@@ -482,6 +485,22 @@ func TestVerifC03ServerReply(t *testing.T) {
 		}
 	}
 
+	k.Sample(map[string]any{"entry": entry, "cases": len(cases), "example payload/addrlen/limit": "4096/3/28"})
+}
+
+// TestVerifC03ServerLoop: the same reply cases through the real receiveLoop goroutine of a session.
+// A panic there is process-fatal (as in production): the case is in inputs-srv-loop.log before it is pushed.
+func TestVerifC03ServerLoop(t *testing.T) {
+	k := vfNewKit(t, "C03", "srv-loop")
+	defer k.Finish()
+	r := vfC03New(k)
+	defer r.Close()
+	const loopEntry = "server:udpSessionEntry.receiveLoop"
+	payload := make([]byte, protocol.MaxUDPSize)
+	for i := range payload {
+		payload[i] = byte(i*13 + 1)
+	}
+	cases := vfC03ReplyCases(k.Rand("grid"), k.N(3000, 120000))
 	// the same through the real receive loop of a session (goroutine of the code under test)
 	nseq := k.N(40, 800)
 	for i := 0; i < nseq; i++ {
@@ -560,7 +579,7 @@ func TestVerifC03ServerReply(t *testing.T) {
 		m.cleanup(false)
 		<-c.closed
 	}
-	k.Sample(map[string]any{"entry": entry, "cases": len(cases), "loop_sequences": nseq, "example payload/addrlen/limit": "4096/3/28"})
+	k.Sample(map[string]any{"entry": loopEntry, "loop_sequences": nseq, "cases_drawn_from": len(cases)})
 }
 
 func TestVerifC03ServerRun(t *testing.T) {
